@@ -530,7 +530,7 @@ func wideCases(prefix string) []cases.ScanCase {
 // outermost tag only, to every tag with the outermost enumerated first, and with the innermost first.
 func tagChainCases(prefix string) []cases.ScanCase {
 	var out []cases.ScanCase
-	for depth := 1; depth <= 3; depth++ {
+	for depth := 1; depth <= 4; depth++ {
 		for _, target := range []string{"tree", "roottree", "blob", "commit"} {
 			for _, place := range []string{"outermost-only", "outer-first", "inner-first"} {
 				if depth == 1 && place != "outermost-only" {
